@@ -90,7 +90,8 @@ theorem same_name_same_entry (l : List MdEntry) (hd : l.Pairwise (fun a b => Md.
 /-- what the API guarantees about a table metadata object, plus the size limits of the reader -/
 structure ApiTM (c : Cfg) (tm : TM) (kept : List MdEntry) : Prop where
   fold : foldCols (tm.cols.flatMap (·.entries)) = .ok kept
-  tabInv : C10.Inv tm.table
+  tabSingle : ∀ e ∈ tm.table.entries, ∃ v, e.value = some v ∧ v.count = 1 ∧
+    (∀ d, e.dflt = some d → d.tid = v.tid ∧ d.count = 1)
   colInv : ∀ col ∈ tm.cols, C10.Inv col
   tabFit : ∀ e ∈ tm.table.entries, fitsStr c e.name.length ∧
     (∀ v, e.value = some v → v.Fits c ∧ v.tid < 256) ∧ (∀ d, e.dflt = some d → d.Fits c ∧ d.tid < 256)
@@ -153,7 +154,7 @@ theorem canon_ok (c : Cfg) (tm : TM) (kept : List MdEntry) (h : ApiTM c tm kept)
     intro e he
     simp only [C03.canonPhys, C03.tableTriples, List.mem_filterMap] at he
     obtain ⟨x, hx, hxe⟩ := he
-    obtain ⟨v, hv, hc1, hd⟩ := h.tabInv.single x hx
+    obtain ⟨v, hv, hc1, hd⟩ := h.tabSingle x hx
     obtain ⟨hfs, hfv, hfd⟩ := h.tabFit x hx
     simp only [hv, Option.map_some, Option.some.injEq] at hxe
     subst hxe
@@ -394,15 +395,16 @@ theorem api_roundtrip (c : Cfg) (tm : TM) (slices : List (List CS)) (kept : List
         ⟨.ok (1, 0), some (.ok ⟨⟨tm.table.entries, false⟩, (rebuiltCols tm kept).map Md.freeze⟩),
          slices.map (fun s => ⟨maskFrom sub 0 s⟩), some (.tableEnd bytes.length)⟩ := by
   obtain ⟨_, hall, _⟩ := fold_facts _ kept h.fold
-  have mdw : ∀ (m : Md), C10.Inv m → (∀ e ∈ m.entries, fitsStr c e.name.length ∧
+  have mdw : ∀ (m : Md), (∀ e ∈ m.entries, ∃ v, e.value = some v ∧ v.count = 1 ∧
+      (∀ d, e.dflt = some d → d.tid = v.tid ∧ d.count = 1)) → (∀ e ∈ m.entries, fitsStr c e.name.length ∧
       (∀ v, e.value = some v → v.Fits c ∧ v.tid < 256) ∧ (∀ d, e.dflt = some d → d.Fits c ∧ d.tid < 256)) →
       C03.MdWritable m := by
     intro m hi hfit e he
-    obtain ⟨v, hv, _, _⟩ := hi.single e he
+    obtain ⟨v, hv, _, _⟩ := hi e he
     obtain ⟨_, hfv, hfd⟩ := hfit e he
     exact ⟨⟨v, hv, writable_of_fits (hfv v hv).1⟩, fun d hd => writable_of_fits (hfd d hd).1⟩
-  refine file_roundtrip c tm slices kept (rebuiltCols tm kept) h.fold (mdw _ h.tabInv h.tabFit)
-    (fun col hcol => mdw col (h.colInv col hcol) (h.colFit col hcol)) ?_ ?_ (canon_ok c tm kept h) hn hf sub rest fuel hfuel
+  refine file_roundtrip c tm slices kept (rebuiltCols tm kept) h.fold (mdw _ h.tabSingle h.tabFit)
+    (fun col hcol => mdw col (h.colInv col hcol).single (h.colFit col hcol)) ?_ ?_ (canon_ok c tm kept h) hn hf sub rest fuel hfuel
   · intro k hk d hd
     obtain ⟨col, hcol, hkc⟩ := entry_of_kept hall hk
     exact writable_of_fits ((h.colFit col hcol k hkc).2.2 d hd).1
